@@ -104,12 +104,19 @@ func scenario(x *explore.X, maxSegs int, withBackPressure bool) {
 
 	// ---- establish the tunnel ---------------------------------------------------------------------
 	var sentC, sentT []byte // payload bytes each side has sent so far
+	upClose := false
 	head := "CONNECT " + target + " HTTP/1.1\r\nHost: " + target + "\r\n\r\n"
 	if routings[routing] == "upgrade" {
-		head = "GET http://target.test/ws HTTP/1.1\r\nHost: target.test\r\nConnection: Upgrade\r\nUpgrade: websocket\r\n\r\n"
+		conn := "Upgrade"
+		if x.Choose("upgrade-request-also-says-close", 2) == 1 {
+			conn = "Upgrade, close" // legal: the connection is not reused after the upgraded session anyway
+			upClose = true
+		}
+		head = "GET http://target.test/ws HTTP/1.1\r\nHost: target.test\r\nConnection: " + conn + "\r\nUpgrade: websocket\r\n\r\n"
 	}
 	first := []byte(head)
 	cNext, tNext := 0, 0
+	_ = upClose
 	if cs.coalesce {
 		first = append(first, cs.segs[0]...)
 		sentC = append(sentC, cs.segs[0]...)
@@ -219,7 +226,7 @@ func scenario(x *explore.X, maxSegs int, withBackPressure bool) {
 	}
 	// ---- explore all interleavings of the remaining script events ------------------------------
 	cFin, tFin := false, false
-	hist := fmt.Sprintf("%s|aged=%v|c%v|t%v|", routings[routing], aged, lens(cs), lens(ts))
+	hist := fmt.Sprintf("%s|aged=%v|close=%v|c%v|t%v|", routings[routing], aged, upClose, lens(cs), lens(ts))
 	check := func(ev string) bool {
 		x.Check()
 		gotT, gotC := tg.Recv(), cl.Recv()
